@@ -33,3 +33,19 @@ func VerifFwDispatch(scope defn.Scope, faceID uint64, pkt *defn.Pkt) {
 		l.dispatchData(pkt)
 	}
 }
+
+// VerifFwLinkService builds a real NDNLPLinkService (default options) for a face of the given scope on a transport
+// that sends nothing.
+func VerifFwLinkService(scope defn.Scope, faceID uint64) *NDNLPLinkService {
+	t := &verifFwTransport{}
+	t.makeTransportBase(defn.MakeNullFaceURI(), defn.MakeNullFaceURI(), PersistencyPermanent, scope, defn.PointToPoint, defn.MaxNDNPacketSize)
+	l := MakeNDNLPLinkService(t, MakeNDNLPLinkServiceOptions())
+	l.SetFaceID(faceID)
+	return l
+}
+
+// VerifFwHandleFrame hands a received frame — a slice of the caller's receive buffer, which the caller may reuse as soon
+// as this returns, like the transports' receive loops do — to the link service.
+func VerifFwHandleFrame(l *NDNLPLinkService, frame []byte) {
+	l.handleIncomingFrame(frame)
+}
